@@ -730,6 +730,7 @@ func (g *FuncGen) ufun(name, sig string) string {
 }
 
 func (g *FuncGen) strByte(s, idx string) string {
+	g.assumptions["A-STRBYTES: a string is a length and a byte function (slicing, concatenation, short literals and string(asciiByte) axiomatised); range-over-string decodes ASCII bytes exactly and over-approximates all others"] = true
 	if g.w.useStrings {
 		return fmt.Sprintf("(str.to_code (str.at %s %s))", s, idx)
 	}
